@@ -18,6 +18,11 @@ asyncio adapter, virtual clock, fake transport); the harness plays the peer with
   handshake.  Messages are still delivered in that window, so the limits must hold there: no over-limit message may
   reach ``onMessage`` (a second close frame cannot be sent, so only non-delivery is asserted; drop-at-header is
   recorded), and at/below-limit messages arriving after the application's ``sendClose()`` are delivered intact.
+* local history (both directions on ONE connection): the same receive streams with the application's own ``sendMessage``
+  calls - refused over-limit ones and accepted below/at-limit ones - executed right after the opening handshake, before
+  the target message, or between its fragments.  Every such send is judged by the send-side clause (over-limit => error,
+  not one octet written; within-limit => exactly that message on the wire) and afterwards the receive-side oracle is
+  applied unchanged: what the application sent or was refused must not change what is accepted from the peer.
 * send side: ``sendMessage`` on an endpoint with ``maxMessagePayloadSize``: over-limit => an exception and not
   one octet written (also after the queued-write timers ran); within limit => exactly that message on the wire.
 * decompression limit (``max_message_size`` of PerMessageDeflateOfferAccept / ResponseAccept): the peer sends
@@ -45,7 +50,10 @@ RULE = ("core grid: role{server,client} x failByDrop{F,T} x limit kind{frame,mes
         "0-2 preceding within-limit messages, interleaved ping/pong; the same with permessage-deflate on (limits act "
         "on wire lengths); lifecycle: a quarter (thorough: half) of that grid again, plus every second at/above case, with the "
         "closing handshake started by the application's sendClose() or (client) the peer's close frame x position{before the "
-        "offending header, between fragments, before the message, right after the opening handshake}; send side: sequences of sendMessage sizes around the limit with/without fragmentation, "
+        "offending header, between fragments, before the message, right after the opening handshake}; local history: a third (thorough: "
+        "half), plus every second at/above case, of that grid with a configured limit again, with the application's own sendMessage sequence{limit+1 refused, "
+        "at limit accepted, refused+accepted, 10*limit+limit-1, two refusals, within-limit fragmented} x position{right after the "
+        "opening handshake, before the target message, between its fragments, before the offending header}; send side: sequences of sendMessage sizes around the limit with/without fragmentation, "
         "sync writes and compression; decompression limit: inflated sizes around max_message_size x content{stored, "
         "text, bomb} x layouts x segmentations x context takeover on/off x 0-3 following messages; plus seed-derived "
         "random cases of all families. A case is non-trivial when its deciding monitor fired (header-only failure "
@@ -59,6 +67,7 @@ ASSUMPTIONS = [
     "send side with compression and context takeover: a message that was REFUSED must not leave traces in the compression context - the following within-limit messages must inflate to what was passed to sendMessage at an RFC 7692 peer (clause 'messages at or below the limit are unaffected')",
     "the raw-octet peer is a CONFORMING RFC 7692 sender: it keeps its compression context across messages only when no-context-takeover was not negotiated for its direction (an earlier version of this check did not and produced zlib errors that were the harness's fault); a frame whose declared payload is never supplied (2^40 / 2^63-1) is only generated where a configured limit stops the stream at its header",
     "decompression limit: an over-limit message may either fail the connection (any close code; 1009 recorded) or be delivered INTACT (today the cap is applied per inflate call, so a message trickled in small reads passes) - only truncated/altered deliveries, corrupted or lost later messages, disturbed within-limit messages and exceptions reaching the framework are violations; max_message_size None/0 = no limit",
+    "local history: sendMessage() between the fragments of an INCOMING message is legal (the two directions are independent, RFC 6455 5.4 restricts interleaving only within one direction); the history sends are judged like the send family (plain: over-limit = len(payload) > maxMessagePayloadSize must raise with zero octets written, within-limit must appear on the wire exactly; compressed: a refusal is demanded only when the written wire size would exceed the limit); the receive-side expectations are exactly those of the same stream without history - the statement's receive clauses carry no exception for connections on which a send was refused",
     "closing window (state CLOSING after the application's sendClose(), or after a client answered the peer's close): both trees still deliver messages there, so 'no over-limit message is ever delivered' is asserted there too; since no second close frame can be sent only NON-DELIVERY is asserted for the over-limit message (whether the endpoint drops at the header, later, or discards the payload is recorded in closing_hdr_* counters); at/below-limit messages sent after the APPLICATION's sendClose() must be delivered intact; messages a peer sends after ITS OWN close frame (non-conforming peer) may or may not be delivered (grey) but never over-limit or altered",
     "control frame payloads are kept <= the frame limit (whether maxFramePayloadSize applies to control frames is not stated)",
     "after a failure in closing-handshake mode only 'nothing over-limit / nothing unexpected is delivered and no exception escapes' is asserted; how the closing handshake then completes belongs to C05",
@@ -80,6 +89,11 @@ DECIDING = {
     "closing_over_limit_not_delivered": 40, "closing_between_fragments": 8, "closing_before_message": 8,
     "closing_mode_app_close": 20, "closing_mode_peer_close": 4, "closing_over_limit_pmce": 4,
     "closing_within_limit_delivered_intact": 20, "closing_at_limit_delivered_intact": 8, "closing_decomp_cases": 4,
+    "hist_send_refused_zero_written": 20, "hist_send_accepted_ok": 20,
+    "hist_hdr_fail_after_refused_send": 20, "hist_hdr_fail_after_accepted_send": 10,
+    "hist_within_limit_delivered_after_refused_send": 10, "hist_at_limit_delivered_after_refused_send": 4,
+    "hist_mid_message_then_hdr_fail": 6, "hist_pos_start": 8, "hist_pos_before_message": 8, "hist_pos_mid_message": 8,
+    "hist_frame_limit_after_refused_send": 4, "hist_pmce_cases": 4, "hist_payload_supplied_after_refused_send": 10,
     "roles": 2, "fail_modes": 2,
 }
 
@@ -380,6 +394,67 @@ def _lifecycle_index(lc, frames, off, upto):
     raise ValueError(pos)
 
 
+def _history_sends(case, conn, R, viol):
+    """The application's own sendMessage() calls on the connection under test, judged by the send-side clause.
+    -> {"refused": n, "accepted": n}, or None after a violation."""
+    ep, role = conn.ep, conn.role
+    M = int(case.get("M", 0))
+    hist = case["hist"]
+    inflater = P.PeerInflate(takeover=not case.get("tx_reset")) if conn.pmce else None
+    seen = {"refused": 0, "accepted": 0}
+    for si, s in enumerate(hist["sends"]):
+        payload = P.content(s["kind"], s["size"], s["seed"])
+        before = len(ep.all_out)
+        exc = None
+        try:
+            ep.proto.sendMessage(payload, isBinary=bool(s["bin"]), fragmentSize=s.get("frag"), sync=bool(s.get("sync")))
+        except Exception as e:     # noqa: BLE001 - every exception type is "an error" for the statement
+            exc = e
+        conn.w.world.settle()
+        conn.w.world.advance(0.25)          # queued (sync) writes use 10 us timers
+        wrote = bytes(ep.all_out[before:])
+        frames, rest = P.parse_out(wrote)
+        data = [f for f in frames if f["op"] in (0, 1, 2)]
+        wire_total = sum(f["n"] for f in data)
+        extra = {"send_index": si, "size": len(payload), "M": M, "exception": repr(exc) if exc else None, "wrote": len(wrote)}
+        if exc is not None:
+            if wrote:
+                viol("history/send/written-before-refusal", "sendMessage(%d octets) raised %s but %d octets were written"
+                     % (len(payload), type(exc).__name__, len(wrote)), extra)
+                return None
+            if not conn.pmce and not (M > 0 and len(payload) > M):
+                viol("history/send/within-limit-refused", "sendMessage(%d octets) raised %s with maxMessagePayloadSize=%d on a connection that is receiving"
+                     % (len(payload), type(exc).__name__, M), extra)
+                return None
+            seen["refused"] += 1
+            R.count("hist_send_refused_zero_written")
+            continue
+        if M > 0 and (wire_total > M or (not conn.pmce and len(payload) > M)):
+            viol("history/send/over-limit-not-refused", "sendMessage(%d octets) with maxMessagePayloadSize=%d on a connection that is receiving was not refused (%d payload octets written)"
+                 % (len(payload), M, wire_total), extra)
+            return None
+        okmsg = (not rest and data and len(data) == len(frames) and data[-1]["fin"] and all(not f["fin"] for f in data[:-1])
+                 and data[0]["op"] == (2 if s["bin"] else 1) and all(f["op"] == 0 for f in data[1:])
+                 and all(f["masked"] == (role == "client") for f in data))
+        body = b"".join(f["payload"] for f in data)
+        if okmsg and conn.pmce and data[0]["rsv"] == 4:
+            try:
+                body = inflater.inflate(body)
+            except Exception as e:      # noqa: BLE001
+                body = None
+                extra["inflate"] = repr(e)
+        elif okmsg and data[0]["rsv"] != 0:
+            okmsg = False
+        if not okmsg or body != payload:
+            extra["frames"] = [(f["op"], f["fin"], f["n"]) for f in frames][:10]
+            viol("history/send/within-limit-garbled", "a within-limit sendMessage(%d octets) on a connection that is receiving did not put exactly that message on the wire"
+                 % len(payload), extra)
+            return None
+        seen["accepted"] += 1
+        R.count("hist_send_accepted_ok")
+    return seen
+
+
 def run_recv(case, R):
     R.count("evaluations")
     conn = Conn(case)
@@ -422,14 +497,28 @@ def _run_recv(case, R, conn):
     lc = case.get("lc")
     lc_at = _lifecycle_index(lc, frames, off, upto) if lc else None
     EVENT = object()
+    # local-history dimension: the application's own sendMessage() calls (refused and accepted ones) happen on the SAME
+    # connection BEFORE frame ``hist_at`` of the stream; the receive-side expectations do not change
+    hist = case.get("hist")
+    if hist and lc:
+        raise RuntimeError("harness: local history and closing handshake are separate dimensions (%r)" % (_brief(case),))
+    hist_at = _lifecycle_index(hist, frames, off, upto) if hist else None
+    HIST = object()
+    hist_seen = None
+    hist_cls = None
+    if hist:
+        nxt = next((f for f in frames[hist_at:(off + 1 if off is not None else len(frames))] if not f.ctrl), None)
+        hist_cls = "start" if hist_at == 0 else ("mid_message" if (nxt is not None and not nxt.first) else "before_message")
     if lc:
         units = _units_for(frames[:lc_at], seg, rng) + [EVENT] + _units_for(frames[lc_at:upto], seg, rng)
+    elif hist:
+        units = _units_for(frames[:hist_at], seg, rng) + [HIST] + _units_for(frames[hist_at:upto], seg, rng)
     else:
         units = _units_for(frames[:upto], seg, rng)
     hdr_units = []
     if off is not None:
         hdr = frames[off].header
-        if hdr_mode == "glued" and units and units[-1] is not EVENT:
+        if hdr_mode == "glued" and units and units[-1] is not EVENT and units[-1] is not HIST:
             units[-1] = units[-1] + hdr
         elif hdr_mode == "bytewise":
             hdr_units = [hdr[i:i + 1] for i in range(len(hdr))]
@@ -441,13 +530,17 @@ def _run_recv(case, R, conn):
                 # the closing handshake did not start as expected (C05's subject): nothing to judge here
                 R.count("lifecycle_event_unexpected")
                 return
+        elif u is HIST:
+            hist_seen = _history_sends(case, conn, R, viol)
+            if hist_seen is None:
+                return
         else:
             ep.feed(u)
     expected = [m for m in messages if m["complete_at"] < upto and not m["huge"]]
     # messages the peer sends AFTER ITS OWN close frame (a non-conforming but possible peer): whether they are still
     # delivered is not the statement's business - if delivered they must be intact and within the limits
     optional = set(m["index"] for m in expected if lc and lc["mode"] == "peer_close" and m["complete_at"] >= lc_at)
-    ktag = "closing/" if lc else ""
+    ktag = "closing/" if lc else ("history/" if hist else "")
     grey_window = bool(lc and lc["mode"] == "peer_close" and lc_at < upto)      # frames were sent after the peer's own close
 
     if off is None or hdr_units:
@@ -481,27 +574,27 @@ def _run_recv(case, R, conn):
                 R.count("closing_hdr_not_dropped_at_header")
         elif not fbd:
             if not closes:
-                viol(tagk + "/not-failed-on-header",
+                viol(ktag + tagk + "/not-failed-on-header",
                      "over-limit frame header (%s frame, declared %d, limits F=%d M=%d) delivered WITHOUT payload: no close frame was written"
                      % (pos, fr.n, F, M), {"frame_index": off, "position": pos})
             else:
                 code = int.from_bytes(closes[0]["payload"][:2], "big") if len(closes[0]["payload"]) >= 2 else None
                 if code != 1009:
-                    viol(tagk + "/wrong-close-code", "connection failed on the over-limit header with status %r instead of 1009" % code,
+                    viol(ktag + tagk + "/wrong-close-code", "connection failed on the over-limit header with status %r instead of 1009" % code,
                          {"code": code, "position": pos})
                 else:
                     ok = True
                     R.count("hdr_fail_by_close_1009")
         else:
             if ep.close_requested is None:
-                viol(tagk + "/not-failed-on-header",
+                viol(ktag + tagk + "/not-failed-on-header",
                      "over-limit frame header (%s frame, declared %d, limits F=%d M=%d) delivered WITHOUT payload: transport drop not requested (failByDrop)"
                      % (pos, fr.n, F, M), {"frame_index": off, "position": pos})
             else:
                 ep.finish_close()
                 oc = conn.on_close()
                 if not oc or oc[0][0] is not False or oc[0][1] not in (1006, 1009):
-                    viol(tagk + "/no-unclean-onclose-after-drop", "after the drop onClose was %r" % (oc,))
+                    viol(ktag + tagk + "/no-unclean-onclose-after-drop", "after the drop onClose was %r" % (oc,))
                 else:
                     ok = True
                     R.count("hdr_fail_by_drop")
@@ -516,6 +609,17 @@ def _run_recv(case, R, conn):
                 R.count("hdr_fail_huge_declared")
             if conn.pmce:
                 R.count("hdr_fail_pmce_wire")
+            if hist_seen:
+                if hist_seen["refused"]:
+                    R.count("hist_hdr_fail_after_refused_send")
+                    if kind in ("frame", "both"):
+                        R.count("hist_frame_limit_after_refused_send")
+                elif hist_seen["accepted"]:
+                    R.count("hist_hdr_fail_after_accepted_send")
+                if hist_cls == "mid_message":
+                    R.count("hist_mid_message_then_hdr_fail")
+                R.seen("hist_classes", "%s/%s/%s/%s/%s/r%d-a%d" % (role, "drop" if fbd else "close", kind, hist_cls, fam,
+                                                              min(hist_seen["refused"], 2), min(hist_seen["accepted"], 2)))
             R.seen("nontrivial", _case_key(case))
             R.seen("fail_classes", "%s/%s/%s/len%d/%s/%s" % (role, "drop" if fbd else "close", kind, form, pos, fam))
         # ---- 3. now supply what was withheld, the rest of the stream and one more valid message
@@ -535,6 +639,8 @@ def _run_recv(case, R, conn):
                 for u in feed_units(rest, "mtu", rng):
                     ep.feed(u)
                 R.count("closing_payload_supplied" if lc else "post_failure_payload_supplied")
+                if hist_seen and hist_seen["refused"]:
+                    R.count("hist_payload_supplied_after_refused_send")
                 if ep.escaped:
                     viol(ktag + "exception-escaped-after-failure", "exception reached the framework after the connection had been failed for an over-limit frame")
     # ---- 4. deliveries
@@ -574,6 +680,10 @@ def _run_recv(case, R, conn):
                  "nolimit": "no_limit_control_delivered"}[r])
         if conn.pmce and M > 0 and len(e["payload"]) > M:
             R.count("grey_inflated_over_message_limit")
+        if hist_seen and hist_seen["refused"] and e["complete_at"] >= hist_at:
+            R.count("hist_within_limit_delivered_after_refused_send")
+            if r == "at":
+                R.count("hist_at_limit_delivered_after_refused_send")
         if lc and e["complete_at"] >= lc_at:
             R.count("closing_within_limit_delivered_intact")
             if r == "at":
@@ -583,6 +693,12 @@ def _run_recv(case, R, conn):
             viol(ktag + "exception-escaped", "exception reached the framework on a stream within the limits")
             return
         R.seen("nontrivial", _case_key(case))
+    if hist_seen and not ep.escaped:
+        R.count("hist_pos_" + hist_cls)
+        if conn.pmce:
+            R.count("hist_pmce_cases")
+    if off is None:
+        pass
     elif lc and not ep.escaped:
         # the over-limit header (and, when the endpoint did not drop, the payload) arrived in the closing window and
         # nothing over-limit reached the application
@@ -998,6 +1114,51 @@ def gen_lifecycle(tier, seed):
     return cases
 
 
+def gen_history(tier, seed):
+    """The receive grid again with the application's own sendMessage() calls on the same connection: refused over-limit
+    sends and accepted below/at-limit sends, right after the opening handshake, before the target message (= the
+    offending one, or the last at/below-limit one), between its fragments, or directly before the offending header."""
+    rng = random.Random(seed * 1000003 + 18)
+    base = gen_recv_core(tier, seed) + gen_recv_pmce(tier, seed)
+    step = 3 if tier == "quick" else 2
+    poss = ["before_offender", "mid_message", "start", "before_message", "mid_message", "before_offender", "start"]
+    recipes = ["over", "at", "over+below", "x10+at", "over+over", "below-frag", "at+over"]
+    cases = []
+    n = 0
+    for idx, b in enumerate(base):
+        if b["F"] == 0 and b["M"] == 0:
+            continue
+        sc = b["cls"].split("/")[-2] if b["cls"].count("/") >= 2 else ""
+        if not ((idx % step == 0) or (sc in ("at", "above") and idx % 2 == 1)):
+            continue
+        n += 1
+        M, F = b["M"], b["F"]
+        L = M if M else F               # M == 0: no send is refused; the sends are accepted ones around the FRAME limit
+        if L > 65536 and n % 3:         # few of the multi-megabyte sends
+            continue
+        rec = recipes[n % len(recipes)]
+        sends = []
+        for part in rec.split("+"):
+            frag = None
+            if part.endswith("-frag"):
+                part, frag = part[:-5], max(1, L // 3)
+            sz = _sizes_for(L, {"over": "above", "at": "at", "below": "below", "x10": "x10"}[part])
+            sz = min(sz, (4 << 20) + 1)
+            if b.get("pmce"):
+                sz = max(sz, 1)
+            kind = "rand" if (n + len(sends)) % 2 else "text"
+            if b.get("pmce") and part in ("over", "x10"):
+                kind = "rand"           # incompressible: the wire size exceeds the limit as well
+            sends.append({"size": sz, "kind": kind, "seed": rng.getrandbits(30), "bin": kind != "text", "frag": frag,
+                          "sync": bool(n % 5 == 0 and sz <= 2000)})
+        c = dict(b)
+        c["hist"] = {"pos": poss[n % len(poss)], "sends": sends}
+        c["cls"] = "hist/%s/%s/%s" % (c["hist"]["pos"], rec, b["cls"])
+        c["mseed"] = rng.getrandbits(30)
+        cases.append(c)
+    return cases
+
+
 def gen_send(tier, seed):
     rng = random.Random(seed * 1000003 + 13)
     cases = []
@@ -1115,6 +1276,14 @@ def gen_random(tier, seed, n):
             if (F or M) and rng.random() < 0.2:
                 cases[-1]["lc"] = {"mode": "peer_close" if (role == "client" and rng.random() < 0.3) else "app_close",
                                    "pos": rng.choice(["before_offender", "mid_message", "before_message", "start"])}
+            elif (F or M) and rng.random() < 0.25:
+                hl = M or F
+                cases[-1]["hist"] = {"pos": rng.choice(["before_offender", "mid_message", "before_message", "start"]),
+                                     "sends": [{"size": max(1 if pm else 0, hl + rng.choice([-1, 0, 1, 1, 1, 9 * hl, -hl // 2])),
+                                                "kind": "rand", "seed": rng.getrandbits(30), "bin": True,
+                                                "frag": rng.choice([None, None, 1, 7, 126]) if hl < 5000 else None,
+                                                "sync": rng.random() < 0.2 and hl < 2000}
+                                               for _ in range(rng.randint(1, 3))]}
             if pm:      # a conforming peer keeps its context only when no-context-takeover was NOT negotiated for its direction
                 cases[-1]["rx_reset"] = rng.random() < 0.3
                 cases[-1]["peer_takeover"] = (not cases[-1]["rx_reset"]) and rng.random() < 0.6
@@ -1149,6 +1318,7 @@ def gen_random(tier, seed, n):
 def all_cases(tier, seed):
     cases = gen_recv_core(tier, seed) + gen_recv_pmce(tier, seed) + gen_send(tier, seed) + gen_decomp(tier, seed)
     cases += gen_lifecycle(tier, seed)
+    cases += gen_history(tier, seed)
     cases += gen_random(tier, seed, 600 if tier == "quick" else 6000)
     return cases
 
@@ -1206,7 +1376,8 @@ def run_shard(params, R):
     for k in ("send_pmce_refused_zero_written", "send_pmce_after_refusal_checked", "decomp_followups_compared",
               "decomp_at_limit_intact", "hdr_fail_huge_declared", "hdr_fail_pmce_wire", "closing_between_fragments",
               "closing_before_message", "closing_mode_peer_close", "closing_over_limit_pmce", "closing_at_limit_delivered_intact",
-              "closing_decomp_cases"):
+              "closing_decomp_cases", "hist_at_limit_delivered_after_refused_send", "hist_mid_message_then_hdr_fail",
+              "hist_frame_limit_after_refused_send", "hist_pmce_cases"):
         R.count(k, 0)
     for idx, case in enumerate(cases):
         if idx % parts != part:
@@ -1230,7 +1401,10 @@ MANIFEST_ENTRY = {
              "over-limit is ever delivered when the payload is supplied afterwards; the same streams are replayed with the closing "
              "handshake already pending (application sendClose() / peer close answered by a client; before the offending header, "
              "between fragments, before the message): nothing over-limit may be delivered in that window either and at/below-limit "
-             "messages after the application's sendClose() still arrive intact. Send side: over-limit sendMessage must raise "
+             "messages after the application's sendClose() still arrive intact; and with the application's own sendMessage() calls "
+             "(refused over-limit ones, accepted at/below-limit ones; each judged by the send clause) on the same connection right "
+             "after the handshake, before the target message or between its fragments - the receive-side verdicts must be those of "
+             "the stream without that history. Send side: over-limit sendMessage must raise "
              "with zero octets written (also after queued-write timers), within-limit sends must put exactly the message on the "
              "wire (inflated by a zlib reference when compressed, also after a refused send). Decompression limit "
              "(max_message_size): every delivery must equal a sent message, later messages stay intact, no exception reaches the "
